@@ -808,9 +808,11 @@ _BTree_set(BTree *self, PyObject *keyarg, PyObject *value,
             toobig = childlength > max_size;
         }
         if (toobig) {
+            /* BTree_grow mutates self, and may have done so already when
+             * it fails half-way (e.g. in BTree_split_root). */
+            changed = 1;
             if (BTree_grow(self, min, noval) < 0)
                 goto Error;
-            changed = 1;        /* BTree_grow mutated self */
         }
         goto Done;      /* and status still == 1 */
     }
@@ -984,6 +986,20 @@ Error:
         */
         _BTree_clear(self);
     }
+#ifdef PERSISTENT
+    else if (changed)
+    {
+        /* self was mutated before the failure: the part of the change
+        * that was made must still be announced, or a later commit writes
+        * the changed children next to a stale copy of this node.
+        */
+        PyObject *et, *ev, *tb;
+        PyErr_Fetch(&et, &ev, &tb);
+        if (PER_CHANGED(self) < 0)
+            PyErr_Clear();
+        PyErr_Restore(et, ev, tb);
+    }
+#endif
     PER_UNUSE(self);
     return -1;
 }
